@@ -58,6 +58,13 @@ func init() {
 
 func runC28(c *Ctx) {
 	ck := "private/path/combinator."
+	// D0: the duplicate filter can only keep the latest-expiring construction if
+	// every construction reaches it: all segments enter the graph, and Combine hands
+	// the three lists to newDMG as they came.
+	segmentsEnterGraph(c, "D0-every-construction-is-a-candidate")
+	if cv := c.View(ck + "Combine"); cv != nil {
+		cv.RequireCallArgs("D0-every-construction-is-a-candidate", 1, ck+"newDMG", "arg2", "arg3", "arg4")
+	}
 	if v := c.View("(*" + ck + "pathSolution).Path"); v != nil {
 		// H1: group stores into HopField-typed allocs per (alloc, block)
 		type key struct {
